@@ -26,7 +26,7 @@ type Case struct {
 	Caps  []int    `json:"caps"`   // the cap each successive reopen is configured with (the server may be restarted with another setting)
 }
 
-var kinds = []string{"add", "add", "add", "add", "get", "list", "seen", "seen", "remove", "remove", "purge", "visit", "reopen", "reopen", "scan"}
+var kinds = []string{"add", "add", "add", "add", "get", "list", "seen", "seen", "remove", "remove", "purge", "visit", "reopen", "reopen", "scan", "addfail"}
 
 var prop = hx.Prop[Case]{
 	ID: pid, Name: "reopen",
